@@ -17,7 +17,8 @@ HEX_FAMILIES = ['regular-6', 'regular-8', 'irregular-6', 'irregular-8',
                 'rotated-6', 'rotated-8', 'handed-minus', 'handed-plus',
                 'swap-last', 'cli-single', 'array-own-zero', 'fill-rotation',
                 'container-rot', 'flip-axial', 'nonadjacent-6',
-                'nonadjacent-8', 'nested', 'side-planes-with-tr', 'paren-pairs']
+                'nonadjacent-8', 'nested', 'side-planes-with-tr', 'paren-pairs',
+                'two-lattices']
 
 LAT_U = 50          # universe of the lattice cell
 LAT_CELL = 500
@@ -134,8 +135,11 @@ def finish(bld, container_geom, lat_cell, fill_of_container, trcl=None,
     deck.cells.insert(0, cont)
     deck.surfs.append(M.Surf(WORLD_SURF, 'so', [deck.world]))
     mat, rho = bld.material()
+    rest = [M.CELLC(1)] + [M.CELLC(c.id) for c in extra_level0]
+    for cel in extra_level0:
+        deck.cells.insert(1, cel)
     deck.cells.insert(1, M.Cell(90, mat=mat, rho=rho,
-                                geom=M.AND(M.CELLC(1), M.S(-WORLD_SURF)),
+                                geom=M.AND(*rest, M.S(-WORLD_SURF)),
                                 imp={'n': '1'}))
     deck.cells.append(M.Cell(900, mat=0, geom=M.S(WORLD_SURF), imp={'n': '0'}))
     deck.cells.sort(key=lambda c: (c.u is not None, c.id))
@@ -541,7 +545,34 @@ def build_hex(rng, family):
     geom = _container(bld, family, span)
     fill_tr, trcl = _place(bld, family)
     cfill = _maybe_nested(bld, family, M.Fill(universe=LAT_U, tr=fill_tr), span)
-    deck = finish(bld, geom, lat, cfill, trcl=trcl)
+    extra = []
+    if family == 'two-lattices':
+        # a second lattice cell bounded by the very same planes, listed
+        # starting from another side: its a1, a2 differ
+        side_leaf = {k: lf for k, lf in zip(order, leaves[:6])}
+        first2 = (first + rng.choice([1, 2, 4, 5])) % 6
+        step2 = rng.choice([-1, 1])
+        third2 = (first2 + step2) % 6
+        rest2 = [k for k in range(6) if k % 3 not in (first2 % 3, third2 % 3)]
+        order2 = [first2, (first2 + 3) % 6, third2, (third2 + 3) % 6] + rest2
+        leaves2 = [side_leaf[k] for k in order2] + list(leaves[6:])
+        truth2 = [trans[first2], trans[third2]] + list(truth[2:])
+        arr2 = _array(rng, ranges3, universes[::-1])
+        fil2 = M.Fill(ranges=list(ranges3), array=arr2)
+        mat2, rho2 = bld.material()
+        lat2 = M.Cell(LAT_CELL + 10, mat=mat2, rho=rho2, geom=M.AND(*leaves2),
+                      imp={'n': '1'}, u=LAT_U + 1, lat=2, fill=fil2)
+        lat2.lat_info = M.LatticeTruth(2, origin, truth2, hexagon=hexv)
+        deck.cells.append(lat2)
+        # two half containers around the origin
+        bld.deck.surfs.append(M.Surf(2, 'p', [float(v) for v in frame[0]]
+                                     + [0.2]))
+        geom1 = M.AND(geom, M.S(-2))
+        mat3, rho3 = bld.material()
+        extra.append(M.Cell(2, mat=mat3, rho=rho3, geom=M.AND(geom, M.S(2)),
+                            imp={'n': '1'}, fill=M.Fill(universe=LAT_U + 1)))
+        geom = geom1
+    deck = finish(bld, geom, lat, cfill, trcl=trcl, extra_level0=extra)
     deck.tags.add(f'c07.{family}')
     deck.tags.add(f'lat2.planes{6 + 2 * axial}')
     deck.tags.add('lat2.irregular' if irregular else 'lat2.regular')
